@@ -5,7 +5,8 @@ Import ListNotations.
 Require Import LV.Files.NumFmtModel LV.Files.NumFmtProofs LV.Files.NpdScan LV.Files.NpdScanProofs
                LV.Files.SaveModel LV.Files.SaveProofs.
 Require LV.Files.TsTok LV.Files.TsParse LV.Files.TsSpec LV.Files.SaveEmit LV.Files.SaveEmitProofs LV.Files.SaveEmitExamples.
-Require LV.Files.SaveTsLemmas LV.Files.NpdLoad LV.Files.SaveNpdProofs.
+Require LV.Files.SaveTsLemmas LV.Files.NpdLoad LV.Files.SaveNpdProofs LV.Files.SaveAllProofs LV.Files.SaveNormIdentity.
+Require LV.Base.CField LV.Conv.ConvRel LV.Gen.Conv2_s LV.Gen.Conv2_z.
 Open Scope Z_scope.
 
 (* eng_value: for every sign, digit string (precision p = its length >= 1), exponent, plus and pad flag,
@@ -201,22 +202,43 @@ Section SaveLoadNpd.
   Hypothesis ptext_nohash : forall p s x, hd 0%N (v_ptext E p s x) <> 35%N.
   Hypothesis itext_field : forall z : Z, (0 <= z <= 2147483647)%Z -> field_int (v_itext E z) = Some z.
 
-  (* load_save_id_npd: for EVERY object (npd_wf: >= 1 port, <= 46340, precisions 0..1000, z0 vector sized unless
-     per-frequency; at least one frequency) and EVERY non-empty format list l of resolved pair-form entries (matrix RI / MA /
-     DB, Zin RI / MA / PRC / PRL / SRC / SRL - all RI-form lists included; entry_good: two-port types only on two ports, square
-     data for matrix entries, the entry's matrix sized: what cksave and the vnadata_t invariants give), z0 vector or
-     per-frequency z0 vectors, any number of ports / frequencies / entries, the line's field count fitting int:
-     the loader model accepts the lines the saver model writes (header lines #:version .. #:dprecision, then one line per
-     frequency) and returns [npd_loaded o e] where e is the entry the loader's own selection (sel = the choice made by
-     account) picks at field offset pbase + sum of the fields of the entries before it: type and form of e, rows / columns,
-     every frequency, the z0 vector (or every per-frequency vector), both precisions, and per frequency every cell of e's
-     matrix as the two written texts read back (entry_vals).  NOT covered: lists holding IL / RL / VSWR columns. *)
-  Theorem load_save_id_npd : forall o l, npd_wf D o -> l <> [] -> Forall (entry_good D E o) l -> fz0_sized D o -> m_freqs o <> [] ->
+  (* load_save_id_npd: for EVERY object (npd_wf) and EVERY format list l of resolved entries parse_format can produce
+     (entry_good: wf_entry, two-port types only on two ports, square data for matrix entries, the entry's matrix sized) that
+     holds at least one loadable (pair-form) entry - matrix RI / MA / DB, Zin RI / MA / PRC / PRL / SRC / SRL - next to any
+     number of IL / RL / VSWR columns, z0 vector or per-frequency z0 vectors, any number of ports / frequencies / entries, the
+     line's field count fitting int: the loader model accepts the lines the saver model writes and returns [npd_loaded o e]
+     where e is the entry the loader's own selection (sel = the choice made by account) picks, at field offset pbase + the
+     fields of ALL entries before it (the IL / RL / VSWR columns are skipped by their counts: efields_len, il_length). *)
+  Theorem load_save_id_npd : forall o l, npd_wf D o -> Exists (fun e => pairform e = true) l -> Forall (entry_good D E o) l ->
+    fz0_sized D o -> m_freqs o <> [] ->
     (pbase D o + sum_fields (Z.of_nat (m_ports o)) l <= 2147483647)%Z ->
     exists l1 e l2, l = l1 ++ e :: l2 /\
       fst (sel (Z.of_nat (m_ports o)) l (pbase D o) None 0%nat) = Some (e, (pbase D o + sum_fields (Z.of_nat (m_ports o)) l1)%Z) /\
       nfinish (fold_left nstep (npd_header E o l ++ map_i (npd_line E o l) 0%nat (m_freqs o)) (NHeader nh0)) = NOk (npd_loaded D E rd rda o e).
   Proof. exact (npd_load_save_lemma D E rd rda ptext_field atext_field ptext_cstr ptext_nohash itext_field). Qed.
+
+  (* load_save_id_npd_scalar_only_refuted: the boundary of the theorem above (known finding DF3).  For EVERY object and
+     every non-empty list holding ONLY IL / RL / VSWR columns (quality 0: nothing the loader can load) the saver writes the
+     file and the loader rejects it (EBADMSG, "file contains no parameter we can load"): the clause "every format
+     combination the saver accepts is one the loader accepts" of C06 is false there. *)
+  Theorem load_save_id_npd_scalar_only_refuted : forall o l, npd_wf D o -> l <> [] -> Forall (entry_good D E o) l ->
+    Forall (fun e => quality e = 0%nat) l -> m_freqs o <> [] ->
+    (pbase D o + sum_fields (Z.of_nat (m_ports o)) l <= 2147483647)%Z ->
+    nfinish (fold_left nstep (npd_header E o l ++ map_i (npd_line E o l) 0%nat (m_freqs o)) (NHeader nh0)) = NError NEBADMSG.
+  Proof. exact (npd_scalar_only_rejected_lemma D E rd ptext_field ptext_cstr ptext_nohash itext_field). Qed.
+
+  (* npd_premises_from_cksave: the premises of load_save_id_npd follow from the acceptance checks (cksave), vnadata_init's
+     shape rule (wf_obj), the invariants of a vnadata_t (mobj_inv: sizes of the z0 / data vectors, ports <= 46340,
+     precisions 0..1000), the shape of vnadata_convert's result (conv_shape) and the format vector being parse_format's
+     output (wf_entry). *)
+  Theorem npd_premises_from_cksave : forall o ft0 promote fmt,
+    mobj_inv D o -> conv_shape D E -> LV.Files.SaveModel.wf_obj (sobj_of E o ft0 promote fmt) = true ->
+    LV.Files.SaveModel.cksave (sobj_of E o ft0 promote fmt) = true ->
+    final_filetype (sobj_of E o ft0 promote fmt) = LV.Files.SaveModel.NPD ->
+    Forall (fun e => wf_entry e = true) (resolved (sobj_of E o ft0 promote fmt)) ->
+    npd_wf D o /\ Forall (entry_good D E o) (resolved (sobj_of E o ft0 promote fmt)) /\ fz0_sized D o /\ m_freqs o <> [] /\
+    resolved (sobj_of E o ft0 promote fmt) <> [].
+  Proof. exact (npd_premises_lemma D E). Qed.
 
   (* at maximum precision in rectangular form every loaded cell is the saved value *)
   Theorem load_save_id_npd_exact_cell : forall (val : D -> xnum) o e fq v, (forall x, rd (m_dprec o) x = val x) -> e_form e = RI ->
@@ -224,7 +246,73 @@ Section SaveLoadNpd.
   Proof. exact (entry_vals_exact D E rd rda). Qed.
 End SaveLoadNpd.
 Print Assumptions load_save_id_npd.
+Print Assumptions load_save_id_npd_scalar_only_refuted.
+Print Assumptions npd_premises_from_cksave.
 Print Assumptions load_save_id_npd_exact_cell.
+
+(* ------------------------------------------------------------------------------------------------
+   c06_load_save_id: the headline.  For EVERY object vnadata_cksave accepts and EVERY file type: what the loader model of
+   the final file type (TsParse.parse for Touchstone 1 / 2, NpdLoad's nstep / nfinish for NPD) returns for the file the
+   saver model writes is the loaded-object record of that file type (ts1_loaded / ts2_loaded / npd_loaded).
+   Premises, all explicit:
+     mobj_wf, mobj_inv          invariants of a vnadata_t (sizes of z0 / data, ports <= 46340, counts fit int, precisions 0..1000)
+     conv_keeps_length, conv_shape   vnadata_convert returns a matrix of the same size / one Zin per port
+     Forall wf_entry (resolved) the format vector is parse_format's output
+     wf_obj, cksave             vnadata_init's shape rule; the acceptance checks of vnadata_save_common
+     Touchstone: freqs_readable (frequencies read back non-negative and ascending: the loader insists on it)
+     NPD: the field count of a line fits int; one entry is loadable (else load_save_id_npd_scalar_only_refuted: DF3)
+   and the number-text layer (Section hypotheses: printf / strtod / strtol).
+   ------------------------------------------------------------------------------------------------ *)
+Section Headline.
+  Import LV.Files.TsTok LV.Files.TsParse LV.Files.NpdLoad LV.Files.SaveEmit LV.Files.SaveEmitProofs LV.Files.SaveNpdProofs LV.Files.SaveAllProofs.
+  Variable D : Type.
+  Variable E : env D.
+  Variable rd : Z -> D -> xnum.
+  Variable rda : Z -> bool -> D -> xnum.
+  Hypothesis ptext_word : forall p s x, parse_double (up (v_ptext E p s x)) = Some (rd p x).
+  Hypothesis atext_word : forall ap z x, parse_double (up (v_atext E ap z x)) = Some (rda ap z x).
+  Hypothesis itext_int : forall z : Z, (0 <= z <= 2147483647)%Z -> parse_int (v_itext E z) = Some z.
+  Hypothesis rd_sign : forall p x, xle (v_val E x) xq0 = false -> xle (rd p x) xq0 = false.
+  Hypothesis ptext_field : forall p s x, field_double (v_ptext E p s x) = Some (rd p x).
+  Hypothesis atext_field : forall ap z x, field_double (v_atext E ap z x) = Some (rda ap z x).
+  Hypothesis ptext_cstr : forall p s x, cstr (v_ptext E p s x) = v_ptext E p s x.
+  Hypothesis ptext_nohash : forall p s x, hd 0%N (v_ptext E p s x) <> 35%N.
+  Hypothesis itext_field : forall z : Z, (0 <= z <= 2147483647)%Z -> field_int (v_itext E z) = Some z.
+
+  Theorem c06_load_save_id : forall o ft0 promote fmt,
+    let s := sobj_of E o ft0 promote fmt in
+    mobj_wf D o -> mobj_inv D o -> conv_keeps_length D E -> conv_shape D E ->
+    Forall (fun e => wf_entry e = true) (resolved s) ->
+    LV.Files.SaveModel.wf_obj s = true -> LV.Files.SaveModel.cksave s = true ->
+    (final_filetype s <> LV.Files.SaveModel.NPD -> freqs_readable D rd o) ->
+    (final_filetype s = LV.Files.SaveModel.NPD ->
+       (pbase D o + sum_fields (Z.of_nat (m_ports o)) (resolved s) <= 2147483647)%Z /\
+       Exists (fun e => pairform e = true) (resolved s)) ->
+    loaded_ok D E rd rda o s (save_emit E o ft0 promote fmt).
+  Proof.
+    exact (c06_load_save_id_lemma D E rd rda ptext_word atext_word itext_int rd_sign
+             ptext_field atext_field ptext_cstr ptext_nohash itext_field).
+  Qed.
+End Headline.
+Print Assumptions c06_load_save_id.
+
+(* touchstone1_normalisation_identity_Z_partial: the Touchstone 1 normalisation, two-port Z, in exact arithmetic and on the
+   two-port functions regenerated from vnaconv_ztos.c / vnaconv_stoz.c (LV.Gen, property C04): for a real reference
+   resistance R = k * k (k = ksq R <> 0, cj R = R) and every matrix outside the singular set of ztos, what the saver writes,
+   stoz (ztos Z R R) 1 1, multiplied cell by cell by R - what TsParse.unnormalise does for PZ - is Z.  PARTIAL: Y, H, G and
+   the n-port Z / Y conversions are not done, and the link to load_save_id_touchstone1 (abstract conv, binary64 values) is
+   the exact-arithmetic reading of its ts1_loaded, not a formal corollary. *)
+Section NormId.
+  Import LV.Base.CField LV.Conv.ConvRel.
+  Local Open Scope cf_scope.
+  Theorem touchstone1_normalisation_identity_Z_partial :
+    forall (K : CField) (R k : K), char_ok K ->
+    R = k * k -> k <> 0 -> cj R = R -> ksq R = k -> cj (@c1 K) = c1 -> ksq (@c1 K) = c1 ->
+    forall a b c d : K, (a + R) * (d + R) - b * c <> 0 ->
+    LV.Files.SaveNormIdentity.unnorm_z K R (LV.Gen.Conv2_s.stoz K (LV.Gen.Conv2_z.ztos K (M2 a b c d) R R) c1 c1) = M2 a b c d.
+  Proof. exact LV.Files.SaveNormIdentity.norm_identity_z_lemma. Qed.
+End NormId.
+Print Assumptions touchstone1_normalisation_identity_Z_partial.
 
 (* load_save_id_touchstone1_lines_partial: for 1..4 ports and RI / MA / DB the tokens the saver writes for one
    frequency of a Touchstone 1 file (frequency, cells in the 2-port column-major order or row by row, one row per
